@@ -1265,7 +1265,7 @@ class BadCatalogue:
             m = self.m
             if not m.rr:
                 raise Skip('needs Rock Ridge')
-            long_ = ('n%d' % op['n']) + 'x' * (2100 + 97 * (op.get('i', 0) % 5))
+            long_ = ('n%d' % op['n']) + 'x' * (2400 + 97 * (op.get('i', 0) % 5))
             if meth == 'add_symlink':
                 nm, paths = self.fresh(op)
                 kw = {'symlink_path': paths['iso'], 'rr_symlink_name': nm['rr'], 'rr_path': '/'.join(['dir%d' % op['n']] * (450 + op.get('i', 0) % 200))}
